@@ -12,7 +12,7 @@
 (* interleaved strategy, which cannot return to the current source and     *)
 (* spins forever when it is the only unfinished one (negative control).    *)
 (***************************************************************************)
-EXTENDS Naturals, Sequences, FiniteSets
+EXTENDS Naturals, Sequences, FiniteSets, SequencesExt
 
 CONSTANTS MaxSrc, MaxLen, Strategy, Buggy
 
@@ -72,9 +72,8 @@ Spec == Init /\ [][Next]_vars /\ WF_vars(Next)
 
 -----------------------------------------------------------------------------
 \* Property layer: what a user sees is `out`, the end of the stream, and (not) hanging.
-RECURSIVE SumTo(_, _)
-SumTo(f, k) == IF k = 0 THEN 0 ELSE f[k] + SumTo(f, k - 1)
-Total(l) == SumTo(l, Len(l))
+\* (folded iteratively: the vectors of the long runs have tens of thousands of sources)
+Total(l) == FoldLeft(LAMBDA acc, x : acc + x, 0, l)
 
 \* items of source s appear in source order
 Tagged(o, s) == SelectSeq(o, LAMBDA x : x[1] = s)
@@ -101,6 +100,13 @@ RRAcc(l, p, i, acc, fuel) ==
          ELSE RRAcc(l, p, (i % Len(l)) + 1, acc, fuel)
 RoundRobin(l) == RRAcc(l, [s \in 1..Len(l) |-> 0], 1, <<>>, 0)
 
+\* the same orders computed on the non-empty sources only (an empty source is skipped without a trace): for vectors with
+\* tens of thousands of empty sources.  CompressInv (checked by TLC on every vector of the model) ties them together.
+NonEmpty(l) == SetToSortSeq({s \in 1..Len(l) : l[s] > 0}, LAMBDA x, y : x < y)
+Lift(o, ne) == [k \in 1..Len(o) |-> <<ne[o[k][1]], o[k][2]>>]
+ConcatC(l) == LET ne == NonEmpty(l) IN Lift(Concat([k \in 1..Len(ne) |-> l[ne[k]]]), ne)
+RoundRobinC(l) == LET ne == NonEmpty(l) IN IF ne = <<>> THEN <<>> ELSE Lift(RoundRobin([k \in 1..Len(ne) |-> l[ne[k]]]), ne)
+
 IsPrefixOf(a, b) == Len(a) <= Len(b) /\ SubSeq(b, 1, Len(a)) = a
 
 Expected(l) == IF Strategy = "sequential" THEN Concat(l) ELSE RoundRobin(l)
@@ -108,6 +114,7 @@ Expected(l) == IF Strategy = "sequential" THEN Concat(l) ELSE RoundRobin(l)
 OrderInv == PerSourceOrder(out, lens)
 StrategyInv == Strategy \in {"sequential", "interleaved"} => IsPrefixOf(out, Expected(lens))
 DoneInv == done => ExactlyOnce(out, lens)
+CompressInv == Concat(lens) = ConcatC(lens) /\ RoundRobin(lens) = RoundRobinC(lens)
 NoHang == ~hang
 Terminates == <>done
 =============================================================================
